@@ -559,7 +559,7 @@ def coq_expect(sd, route):
     labels = [] if route['withdraw'] else e['labels']
     rr = f'(mkR {coq_opt(e["pid"])} {zlist(labels)} {coq_opt(e["rd"])} {e["len"]} {e["addr"]})'
     fam = f'({e["fam"][0]},{e["fam"][1]})'
-    raw2 = 'None' if e['raw2'] is None else f'(Some {coq_segs(e["raw2"])})'
+    raw2 = 'false' if e['raw2'] is None else 'true'
     return (f'(mkE {"true" if route["withdraw"] else "false"} {fam} {rr} {zlist(e["nh"])} [' + ';'.join(e['attrs']) + f'] {raw2} '
             f'{"true" if e["large_asn"] else "false"})')
 
@@ -584,7 +584,7 @@ Definition corr_ok (c : bool * sess * bool * route * option (list Z)) : bool :=
   match c with (_, _, _, _, impl) => oleqb (model_of c) impl end.
 (* ---- property oracle (glue): expected semantic value, canonical forms *)
 Record expect := mkE { e_wd : bool; e_fam : Z * Z; e_nlri : rfc_route; e_nh : list Z; e_attrs : list sattr;
-                       e_raw2 : option (list (Z * list Z)); e_large : bool }.
+                       e_2byte : bool; e_large : bool }.
 Definition rr_eqb (a b : rfc_route) : bool :=
   ozeqb (r_pid a) (r_pid b) && leqb (r_labels a) (r_labels b) && ozeqb (r_rd a) (r_rd b)
   && (r_len a =? r_len b) && (r_addr a =? r_addr b).
@@ -620,6 +620,9 @@ Fixpoint insa (x : sattr) (l : list sattr) : list sattr :=
   match l with [] => [x] | y :: r => if akey x <? akey y then x :: l else y :: insa x r end.
 Fixpoint attrs_eqb (a b : list sattr) : bool :=
   match a, b with [], [] => true | x :: a', y :: b' => sattr_eqb x y && attrs_eqb a' b' | _, _ => false end.
+(* what a 2-byte peer must see in AS_PATH: AS_TRANS in every slot of an ASN above 65535 *)
+Definition as_trans_of (l : list sattr) : list (Z * list Z) :=
+  flat_map (fun a => match a with SAsPath p => map (fun sg => (fst sg, map (fun v => if 65535 <? v then 23456 else v) (snd sg))) p | _ => [] end) l.
 (* the property judged on the bytes the implementation sent *)
 Definition judge (rs : rsess) (e : expect) (body : list Z) : Z :=
   match ref_decode rs body with
@@ -638,7 +641,7 @@ Definition judge (rs : rsess) (e : expect) (body : list Z) : Z :=
         else if negb (rr_eqb r (e_nlri e)) then 3
         else if negb (leqb nh (e_nh e)) then 5
         else if negb (attrs_eqb (fold_right insa [] (u_attrs u)) (e_attrs e)) then 6
-        else match e_raw2 e with
+        else match (if e_2byte e then Some (as_trans_of (e_attrs e)) else None) with
              | None => match u_raw_as4path u with None => 0 | Some _ => 8 end
              | Some p2 => if negb (osegs_eqb (u_raw_aspath u) (Some p2)) then 7
                           else if negb (Bool.eqb (match u_raw_as4path u with Some _ => true | None => false end) (e_large e)) then 8
@@ -711,16 +714,20 @@ def evaluate(cases, mc, tag):
         return bodies[0] if len(bodies) == 1 else None
 
     def defs(idx):
-        m_items, j_items = [], []
+        b_defs, m_items, j_items = [], [], []
         for k in idx:
             c = cases[k]
             s4, s6 = c['self']
             b = body_of(c)
-            m_items.append(f'({"true" if mc else "false"}, {coq_sess(c["sd"], c["sess"].seen, s4, s6)}, '
-                           f'{"true" if c["route"]["withdraw"] else "false"}, {coq_route(c["route"])}, {coq_optbytes(b)})')
             if b is not None:
-                j_items.append(f'({coq_rsess(c["sd"])}, {coq_expect(c["sd"], c["route"])}, {common.zbytes(b)})')
-        return ('Definition mcases : list (bool * sess * bool * route * option (list Z)) := [' + ';\n'.join(m_items) + '].\n'
+                b_defs.append(f'Definition b{k} : list Z := {common.zbytes(b)}.')
+            m_items.append(f'({"true" if mc else "false"}, {coq_sess(c["sd"], c["sess"].seen, s4, s6)}, '
+                           f'{"true" if c["route"]["withdraw"] else "false"}, {coq_route(c["route"])}, '
+                           f'{"None" if b is None else f"(Some b{k})"})')
+            if b is not None:
+                j_items.append(f'({coq_rsess(c["sd"])}, {coq_expect(c["sd"], c["route"])}, b{k})')
+        return ('\n'.join(b_defs) + '\n'
+                'Definition mcases : list (bool * sess * bool * route * option (list Z)) := [' + ';\n'.join(m_items) + '].\n'
                 'Eval vm_compute in (bad corr_ok mcases 0).\n'
                 'Definition jcases : list (rsess * expect * list Z) := [' + ';\n'.join(j_items) + '].\n'
                 'Eval vm_compute in (judge_all jcases).\n')
@@ -817,7 +824,7 @@ def check(tier, seed):
     run.obligation('every generated session kind negotiates as described (true local AS, ASN4, ADD-PATH send, families)',
                    not bad_sessions, json.dumps(bad_sessions[:2])[:1500])
 
-    n_routes = 1500 if quick else 40000
+    n_routes = 1000 if quick else 40000
     streams = ['mixed'] * 6 + ['plain', 'aspath', 'aspath', 'big', 'extnh']
     cases = []
     for i in range(n_routes):
